@@ -659,4 +659,258 @@ theorem unionFrom_disjoint : ∀ (cs : List (List Sample)) (l : Int),
         unfold lastOf
         exact this
 
+/-! ### boundedSeriesIterator over a list-like iterator whose samples all lie in `[mint, maxt]`
+
+  In general the wrapper is NOT list-like (its `Seek` does not enforce `maxt`, so a sample beyond
+  `maxt` can be returned); when the query range covers the samples it is transparent. -/
+
+section bounded
+variable {σ : Type} {o : Ops σ} {V : σ → Prop} {abs : σ → List Sample} (mint maxt : Int)
+
+def bndAbs (abs : σ → List Sample) (s : Bnd σ) : List Sample := if s.stopped then [] else abs s.inner
+
+def bndV (V : σ → Prop) (abs : σ → List Sample) (mint maxt : Int) (s : Bnd σ) : Prop :=
+  V s.inner ∧ s.bad = false ∧ ∀ x ∈ abs s.inner, mint ≤ x.t ∧ x.t ≤ maxt
+
+theorem bnd_not_stopped {s : Bnd σ} (h : bndAbs abs s ≠ []) : s.stopped = false ∧ abs s.inner ≠ [] := by
+  unfold bndAbs at h
+  cases hs : s.stopped with
+  | true => simp [hs] at h
+  | false => simp [hs] at h; exact ⟨rfl, h⟩
+
+theorem dropLt_all_ge {t : Int} {l : List Sample} (h : ∀ x ∈ l, t ≤ x.t) : dropLt t l = l := by
+  cases l with
+  | nil => rfl
+  | cons a l => exact dropLt_cons_ge (h a (by simp))
+
+theorem dropLt_all_lt {t : Int} : ∀ {l : List Sample}, (∀ x ∈ l, x.t < t) → dropLt t l = []
+  | [], _ => rfl
+  | a :: l, h => by
+    rw [dropLt_cons_lt (h a (by simp))]
+    exact dropLt_all_lt (fun x hx => h x (by simp [hx]))
+
+/-- `bNext` on a positioned inner state all of whose samples are in range is the inner `Next` -/
+theorem bNext_inrange (h : ListLike o V abs) {s : σ} (hV : V s) (hne : abs s ≠ [])
+    (hin : ∀ x ∈ abs s, mint ≤ x.t ∧ x.t ≤ maxt) :
+    bNext o mint maxt s = some ((o.next s).1, !(abs s).tail.isEmpty) := by
+  unfold bNext
+  simp only [h.nextOk s hV hne]
+  cases htl : (abs s).tail with
+  | nil => simp
+  | cons y r =>
+    have hne' : abs (o.next s).1 ≠ [] := by rw [h.nextAbs s hV hne, htl]; simp
+    have hy := hin y (List.mem_of_mem_tail (by rw [htl]; simp))
+    simp only [List.isEmpty_cons, Bool.not_false, Bool.not_true, Bool.false_eq_true, if_false]
+    rw [h.atT _ (h.nextV s hV hne) hne', h.nextAbs s hV hne, htl]
+    have h1 : ¬ y.t < mint := by omega
+    simp [h1, hy.2]
+
+theorem bnd_listLike (h : ListLike o V abs) :
+    ListLike (bndOps o mint maxt) (bndV V abs mint maxt) (bndAbs abs) where
+  lower := by
+    intro s hV x hx
+    unfold bndAbs at hx
+    cases hs : s.stopped with
+    | true => simp [hs] at hx
+    | false => simp [hs] at hx; exact h.lower _ hV.1 x hx
+  atS := by
+    intro s hV hne
+    obtain ⟨hs, hne'⟩ := bnd_not_stopped hne
+    simp only [bndOps, bndAbs, hs, Bool.false_eq_true, if_false]
+    exact h.atS _ hV.1 hne'
+  atT := by
+    intro s hV hne
+    obtain ⟨hs, hne'⟩ := bnd_not_stopped hne
+    simp only [bndOps, bndAbs, hs, Bool.false_eq_true, if_false]
+    exact h.atT _ hV.1 hne'
+  seekV := by
+    intro s t hV hne
+    obtain ⟨hs, hne'⟩ := bnd_not_stopped hne
+    simp only [bndOps, bSeek]
+    by_cases ht : t > maxt
+    · simp only [ht, if_true]; exact hV
+    · simp only [ht, if_false]
+      refine ⟨h.seekV _ _ hV.1 hne', hV.2.1, ?_⟩
+      rw [h.seekAbs _ _ hV.1 hne']
+      exact fun x hx => hV.2.2 x (mem_of_mem_dropLt hx)
+  seekAbs := by
+    intro s t hV hne
+    obtain ⟨hs, hne'⟩ := bnd_not_stopped hne
+    simp only [bndOps, bSeek, bndAbs, hs, Bool.false_or]
+    by_cases ht : t > maxt
+    · simp only [ht, decide_true, if_true]
+      exact (dropLt_all_lt (fun x hx => by have := (hV.2.2 x hx).2; omega)).symm
+    · simp only [ht, decide_false, Bool.false_eq_true, if_false]
+      rw [h.seekAbs _ _ hV.1 hne']
+      by_cases htm : t < mint
+      · simp only [htm, if_true]
+        rw [dropLt_all_ge (fun x hx => (hV.2.2 x hx).1), dropLt_all_ge (fun x hx => by have := (hV.2.2 x hx).1; omega)]
+      · simp only [htm, if_false]
+  seekOk := by
+    intro s t hV hne
+    obtain ⟨hs, hne'⟩ := bnd_not_stopped hne
+    simp only [bndOps, bSeek, bndAbs, hs, Bool.false_eq_true, if_false]
+    by_cases ht : t > maxt
+    · simp only [ht, if_true]
+      rw [dropLt_all_lt (fun x hx => by have := (hV.2.2 x hx).2; omega)]; rfl
+    · simp only [ht, if_false]
+      rw [h.seekOk _ _ hV.1 hne']
+      by_cases htm : t < mint
+      · simp only [htm, if_true]
+        rw [dropLt_all_ge (fun x hx => (hV.2.2 x hx).1), dropLt_all_ge (fun x hx => by have := (hV.2.2 x hx).1; omega)]
+      · simp only [htm, if_false]
+  nextV := by
+    intro s hV hne
+    obtain ⟨hs, hne'⟩ := bnd_not_stopped hne
+    simp only [bndOps, bNext_inrange mint maxt h hV.1 hne' hV.2.2]
+    refine ⟨h.nextV _ hV.1 hne', hV.2.1, ?_⟩
+    rw [h.nextAbs _ hV.1 hne']
+    exact fun x hx => hV.2.2 x (List.mem_of_mem_tail hx)
+  nextAbs := by
+    intro s hV hne
+    obtain ⟨hs, hne'⟩ := bnd_not_stopped hne
+    simp only [bndOps, bNext_inrange mint maxt h hV.1 hne' hV.2.2, bndAbs, hs, Bool.false_eq_true, if_false]
+    exact h.nextAbs _ hV.1 hne'
+  nextOk := by
+    intro s hV hne
+    obtain ⟨hs, hne'⟩ := bnd_not_stopped hne
+    simp only [bndOps, bNext_inrange mint maxt h hV.1 hne' hV.2.2, bndAbs, hs, Bool.false_eq_true, if_false]
+  adjustV := fun s v hV _ => hV
+  adjustAbs := fun s v _ _ => rfl
+  bad := by
+    intro s hV
+    simp [bndOps, hV.2.1, h.bad _ hV.1]
+  fuel := by
+    intro s hV
+    unfold bndAbs
+    cases s.stopped
+    · simpa [bndOps] using h.fuel _ hV.1
+    · simp
+
+/-- a fresh bounded iterator over a fresh list-like one whose samples are all in range -/
+theorem bnd_initNext (h : ListLike o V abs) {s0 : σ} {L : List Sample} (hi : InitNext o V abs s0 L)
+    (hin : ∀ x ∈ L, mint ≤ x.t ∧ x.t ≤ maxt) :
+    InitNext (bndOps o mint maxt) (bndV V abs mint maxt) (bndAbs abs)
+      { inner := s0, bad := false, stopped := false } L := by
+  have hb : bNext o mint maxt s0 = some ((o.next s0).1, !L.isEmpty) := by
+    unfold bNext
+    simp only [hi.nextOk]
+    cases hL : L with
+    | nil => simp
+    | cons y r =>
+      have hne' : abs (o.next s0).1 ≠ [] := by rw [hi.nextAbs, hL]; simp
+      have hy := hin y (by rw [hL]; simp)
+      simp only [List.isEmpty_cons, Bool.not_false, Bool.not_true, Bool.false_eq_true, if_false]
+      rw [h.atT _ hi.nextV hne', hi.nextAbs, hL]
+      have h1 : ¬ y.t < mint := by omega
+      simp [h1, hy.2]
+  refine ⟨hi.lower, ?_, ?_, ?_, ?_⟩
+  · simp only [bndOps, hb]
+    exact ⟨hi.nextV, rfl, by rw [hi.nextAbs]; exact hin⟩
+  · simp only [bndOps, hb, bndAbs, Bool.false_eq_true, if_false]
+    exact hi.nextAbs
+  · simp only [bndOps, hb]
+  · simpa [bndOps] using hi.fuel
+
+end bounded
+
+/-! ### the querier side of `selectDedup` as a pure function -/
+
+theorem drainChecked_go_spec {σ : Type} {o : Ops σ} {V : σ → Prop} {abs : σ → List Sample}
+    (h : ListLike o V abs) : ∀ (n : Nat) (s : σ), V s → abs s ≠ [] → (abs s).length ≤ n →
+      drainChecked.go o n s = some (abs s).tail := by
+  intro n
+  induction n with
+  | zero =>
+    intro s _ hne hl
+    exact absurd (List.length_eq_zero_iff.mp (Nat.le_zero.mp hl)) hne
+  | succ n ih =>
+    intro s hV hne hl
+    unfold drainChecked.go
+    simp only [h.bad _ (h.nextV s hV hne), Bool.false_eq_true, if_false, h.nextOk s hV hne]
+    cases htl : (abs s).tail with
+    | nil => simp
+    | cons y r =>
+      have hne' : abs (o.next s).1 ≠ [] := by rw [h.nextAbs s hV hne, htl]; simp
+      simp only [List.isEmpty_cons, Bool.not_false, if_true]
+      rw [h.atS _ (h.nextV s hV hne) hne', h.nextAbs s hV hne, htl]
+      simp only [List.head?_cons]
+      rw [ih _ (h.nextV s hV hne) hne' (by
+        rw [h.nextAbs s hV hne, htl]
+        have : (abs s).length = (abs s).tail.length + 1 := by
+          cases habs : abs s with
+          | nil => exact absurd habs hne
+          | cons a l => simp
+        rw [htl] at this
+        simp only [List.length_cons] at this ⊢
+        omega)]
+      rw [h.nextAbs s hV hne, htl]
+      rfl
+
+theorem drainChecked_goodN {i : AnyIt} {L : List Sample} (hg : GoodN i L) : drainChecked i = some L := by
+  obtain ⟨V, abs, h, hi⟩ := hg
+  unfold drainChecked
+  have hf : i.fuel + 2 = (i.fuel + 1) + 1 := rfl
+  rw [hf, drainChecked.go]
+  simp only [h.bad _ hi.nextV, Bool.false_eq_true, if_false, hi.nextOk]
+  cases hL : L with
+  | nil => simp
+  | cons y r =>
+    have hne : abs (i.ops.next i.st).1 ≠ [] := by rw [hi.nextAbs, hL]; simp
+    simp only [List.isEmpty_cons, Bool.not_false, if_true]
+    rw [h.atS _ hi.nextV hne, hi.nextAbs, hL]
+    simp only [List.head?_cons]
+    rw [drainChecked_go_spec h _ _ hi.nextV hne (by
+      rw [hi.nextAbs]
+      have := hi.fuel
+      show L.length ≤ i.ops.fuel i.st + 1
+      exact this)]
+    rw [hi.nextAbs, hL]
+    rfl
+
+/-- the pure function `foldIts` computes: the left fold of `pm2` -/
+def pmFoldL : List (List Sample) → List Sample
+  | [] => []
+  | L :: Ls => Ls.foldl (pm2 minT) L
+
+theorem foldIts_good : ∀ (ps : List (AnyIt × List Sample)), ps ≠ [] → (∀ p ∈ ps, GoodN p.1 p.2) →
+    ∃ it, foldIts true (ps.map (·.1)) = some it ∧ GoodN it (pmFoldL (ps.map (·.2))) := by
+  intro ps hne hg
+  cases ps with
+  | nil => exact absurd rfl hne
+  | cons p ps =>
+    refine ⟨_, rfl, ?_⟩
+    simp only [List.map_cons, pmFoldL]
+    have key : ∀ (ps : List (AnyIt × List Sample)) (acc : AnyIt) (L : List Sample), GoodN acc L →
+        (∀ q ∈ ps, GoodN q.1 q.2) →
+        GoodN ((ps.map (·.1)).foldl (fun acc b =>
+          { σ := Node acc.σ b.σ, ops := nodeOps acc.ops b.ops true,
+            st := nodeNew acc.ops b.ops acc.st b.st }) acc) ((ps.map (·.2)).foldl (pm2 minT) L) := by
+      intro ps
+      induction ps with
+      | nil => intro acc L h _; exact h
+      | cons q ps ih =>
+        intro acc L hacc hq
+        simp only [List.map_cons, List.foldl_cons]
+        apply ih
+        · obtain ⟨Va, absA, ha, ia⟩ := hacc
+          obtain ⟨Vb, absB, hb, ib⟩ := hq q (by simp)
+          exact ⟨nodeV Va Vb absA absB, nodeAbs absA absB, node_listLike ha hb true,
+            (node_initLike ha hb ia ib).toNext⟩
+        · exact fun q' hq' => hq q' (by simp [hq'])
+    exact key ps p.1 p.2 (hg p (by simp)) (fun q hq => hg q (by simp [hq]))
+
+/-- `chunkSeries.Iterator` for a row whose samples all lie in the query range -/
+theorem chunkSeriesIt_good (qmint qmaxt : Int) (c : List Sample) (cs : List (List Sample))
+    (hc : ChunkOK c) (hcs : ∀ d ∈ cs, ChunkOK d)
+    (hin : ∀ d ∈ c :: cs, ∀ x ∈ d, qmint ≤ x.t ∧ x.t ≤ qmaxt) :
+    ∃ it, chunkSeriesIt qmint qmaxt (c :: cs) = some it ∧ GoodN it (unionFrom 0 (c :: cs)) := by
+  refine ⟨_, rfl, ?_⟩
+  obtain ⟨V, abs, h, hi⟩ := cs_goodN c cs hc hcs
+  refine ⟨bndV V abs qmint qmaxt, bndAbs abs, bnd_listLike qmint qmaxt h, ?_⟩
+  apply bnd_initNext qmint qmaxt h hi
+  intro x hx
+  obtain ⟨d, hd, hxd⟩ := mem_unionFrom hx
+  exact hin d hd x hxd
+
 end Thanos.Dedup
